@@ -131,4 +131,40 @@ theorem sameSets_of_rel (m : List (String × String)) (j : Nat) (hp : plainCol m
     simp only [List.map_cons]
     exact SameSets.cons (names_rel m j hp _ _ hk h) (sameSets_of_rel m j hp hk _ _ t)
 
+/- ## the name→states map of ACR -/
+
+theorem mem_insertKV {β : Type} (kv x : String × β) : ∀ l : List (String × β),
+    x ∈ insertKV kv l → x = kv ∨ x ∈ l
+  | [], h => by simp only [insertKV, List.mem_cons, List.not_mem_nil, or_false] at h; exact Or.inl h
+  | y :: r, h => by
+    unfold insertKV at h
+    split at h
+    · simp only [List.mem_cons] at h ⊢
+      rcases h with h | h | h
+      · exact Or.inl h
+      · exact Or.inr (Or.inl h)
+      · exact Or.inr (Or.inr h)
+    · split at h
+      · simp only [List.mem_cons] at h ⊢
+        rcases h with h | h
+        · exact Or.inl h
+        · exact Or.inr (Or.inr h)
+      · simp only [List.mem_cons] at h ⊢
+        rcases h with h | h
+        · exact Or.inr (Or.inl h)
+        · rcases mem_insertKV kv x r h with h' | h'
+          · exact Or.inl h'
+          · exact Or.inr (Or.inr h')
+
+theorem mem_foldl_insertKV {β : Type} (x : String × β) : ∀ (es acc : List (String × β)),
+    x ∈ es.foldl (fun acc kv => insertKV kv acc) acc → x ∈ es ∨ x ∈ acc
+  | [], acc, h => Or.inr (by simpa using h)
+  | e :: r, acc, h => by
+    simp only [List.foldl_cons] at h
+    rcases mem_foldl_insertKV x r _ h with h' | h'
+    · exact Or.inl (List.mem_cons_of_mem _ h')
+    · rcases mem_insertKV e x acc h' with h'' | h''
+      · exact Or.inl (by rw [h'']; exact List.mem_cons_self ..)
+      · exact Or.inr h''
+
 end Gotree.C12
